@@ -45,6 +45,13 @@ def read_edge_kinds(repo=None):
 
 KINDS = read_edge_kinds()
 NK = len(KINDS)
+# pairs of kinds whose NAMES are related as strings (one a proper prefix / suffix / substring of the
+# other): the edge index keys an edge by text built from the kind name, so such kinds must be told
+# apart by every lookup and removal.  Computed from whatever the tree under test declares.
+NAME_RELATED = [(i, j) for i in range(NK) for j in range(NK)
+                if i != j and KINDS[i] and KINDS[i] in KINDS[j]]
+METAS = [0, 1, 2, 3]             # AddEdge metadata argument: nil, {"note":"first"}, {"note":"second"}, {} (see graph.go gMeta)
+META_TEXT = {0: "nil", 1: '{"note":"first"}', 2: '{"note":"second"}', 3: "{}"}
 
 
 # ---------------------------------------------------------------- generator
@@ -67,9 +74,32 @@ def gen_history(rng, maxlen=25):
         palette = rng.sample(range(NK), min(NK, rng.choice([1, 2, 2, 3, 3, 4])))
     else:
         palette = list(range(NK))
+    if NAME_RELATED and rng.random() < 0.3:
+        # two kinds with string-related names together (and at most one more kind)
+        palette = list(rng.choice(NAME_RELATED)) + [k for k in palette[:1] if rng.random() < 0.3]
+        palette = sorted(set(palette))
+    # metadata of the AddEdge calls of this history: all nil (what gleece itself passes) / mixed
+    mstyle = rng.random()
+
+    def emeta():
+        if mstyle < 0.45:
+            return 0
+        return rng.choice(METAS) if rng.random() < 0.6 else 0
 
     def ekind():
         return rng.choice(palette) if rng.random() < 0.93 else rng.randrange(NK)
+
+    def other_kind(k):
+        ks = [x for x in palette if x != k]
+        return rng.choice(ks) if ks else ekind()
+
+    def with_meta(op):
+        m = emeta()
+        if m:
+            op["meta"] = m
+        else:
+            op.pop("meta", None)
+        return op
 
     def dkey(b=None):
         if b is None:
@@ -106,8 +136,18 @@ def gen_history(rng, maxlen=25):
         h = h[:n - 2]
     while len(h) < n:
         r = rng.random()
-        if h and r < 0.12:                      # repeat an earlier op (often the last one)
+        adds = [o for o in h if o["op"] == "AddEdge"]
+        if adds and rng.random() < 0.07:
+            # an edge added earlier (other edges may have been added since) is added AGAIN, with
+            # the same or other metadata, possibly under the other file version of its keys
+            e = rng.choice(adds)
+            op = with_meta({"op": "AddEdge", "f": list(e["f"]), "t": list(e["t"]), "kind": e["kind"]})
+            if rng.random() < 0.15:
+                op["f"] = dkey(op["f"][0]) if op["f"][0] in DECL else op["f"]
+        elif h and r < 0.12:                    # repeat an earlier op (often the last one)
             op = dict(h[-1] if rng.random() < 0.5 else rng.choice(h))
+            if op["op"] == "AddEdge" and rng.random() < 0.6:
+                with_meta(op)                   # the same edge again, with whatever metadata
         elif r < 0.17:
             op = {"op": "AddPrimitive", "p": rng.choice(PRIMS)}
         elif r < 0.21:
@@ -131,14 +171,31 @@ def gen_history(rng, maxlen=25):
             cur[k[0]] = k[1]
             op = {"op": "AddAlias", "k": k}
         elif r < 0.77:
-            op = {"op": "AddEdge", "f": anykey(), "t": anykey(), "kind": ekind()}
+            op = with_meta({"op": "AddEdge", "f": anykey(), "t": anykey(), "kind": ekind()})
             if h and h[-1]["op"] == "AddEdge" and rng.random() < 0.3:
-                # a second edge, of another kind, between the pair just linked
+                # a second edge, of ANOTHER kind of the palette, between the pair just linked
                 op["f"], op["t"] = list(h[-1]["f"]), list(h[-1]["t"])
+                op["kind"] = other_kind(h[-1]["kind"])
+            elif adds and rng.random() < 0.15:
+                # ... or between a pair linked earlier; or another target from the same source
+                e = rng.choice(adds)
+                op["f"] = list(e["f"])
+                if rng.random() < 0.5:
+                    op["t"], op["kind"] = list(e["t"]), other_kind(e["kind"])
         elif r < 0.88:
             op = {"op": "RemoveEdge", "f": anykey(), "t": anykey()}
             if rng.random() < 0.6:
                 op["kind"] = ekind()
+            if adds and rng.random() < 0.5:
+                # aimed at a pair that was linked: by the kind of that edge, by another kind of the
+                # palette (there or not), or all kinds
+                e = rng.choice(adds)
+                op = {"op": "RemoveEdge", "f": list(e["f"]), "t": list(e["t"])}
+                x = rng.random()
+                if x < 0.5:
+                    op["kind"] = e["kind"]
+                elif x < 0.8:
+                    op["kind"] = other_kind(e["kind"])
         else:
             if cur and rng.random() < 0.5:      # something that was added (often has dependants)
                 b = rng.choice(sorted(cur))
@@ -214,6 +271,8 @@ def coq_op(o):
     if t == "AddEnum":
         return "AddEnum %s (K %d 0) %s" % (ck(o["k"]), o["p"], coq_list([ck(f) for f in o.get("vals", [])]))
     if t == "AddEdge":
+        # the metadata argument (o["meta"]) is not part of the model's op: whatever it is, AddEdge
+        # is add_edge - a no-op on an existing (from, kind, to), ordinals included
         return "AddEdge %s %s %d" % (ck(o["f"]), ck(o["t"]), o["kind"])
     if t == "RemoveEdge":
         kd = o.get("kind")
@@ -404,12 +463,14 @@ FCLAUSES = ["answers through an edge-kind filter: Children/Parents/Descendants(n
             "children/parents duality through a filter: x in Children(b, ks) iff b in Parents(x, ks)"]
 CLAUSES = ["harness consistency flags (version-independent key queries, Exists = (Get != nil), kind-filtered GetEdges, "
            "sorted traversals return the unsorted answers' nodes in the order of the ordinals GetEdges lists, "
-           "node-kind filters, identical answers on re-execution, no panic)",
+           "node-kind filters, edge metadata is what the creating AddEdge gave and never changes, identical answers on "
+           "re-execution, no panic)",
            "out/in agreement: every edge listed by GetEdges of some node is listed by both its source and its target",
            "query answers (Get/Exists, GetEdges, Children, Parents, Descendants, FindByKind) equal the "
            "set-of-nodes/set-of-edges model",
            "op-specific clause (RemoveNode removes the node and every touching edge / a (re-)added node is present "
-           "under the version given / re-inserting an existing node or edge changes nothing)"]
+           "under the version given / re-inserting an existing node or edge - whatever metadata the repeated AddEdge "
+           "carries - changes nothing: same answers AND the same edge descriptors, ordinals included)"]
 
 
 DIAG_RE = r"Some\s*\(\s*(\d+)(?:%nat)?\s*,\s*\[([^\]]*)\]\s*,(.*)\)\s*:\s*option"
@@ -459,7 +520,10 @@ FLAG_NAMES = ["queries under the two file versions of a key differ", "Exists != 
               "GetEdges(key, [kind]) != the edges of that kind in GetEdges(key, nil)",
               "a sorted Children/Parents returns other nodes than the unsorted one (same filter)",
               "a sorted Children/Parents (plain or through an edge-kind filter) does not list, in ordinal order, the nodes at the other end of the edges (of the admitted kinds) that GetEdges lists",
-              "Children/Parents(node, NodeKinds=[k]) != the plain answer restricted to node kind k"]
+              "Children/Parents(node, NodeKinds=[k]) != the plain answer restricted to node kind k",
+              "edge metadata: an edge (from, kind, to, ordinal) listed before the op is listed with other metadata after it, "
+              "or a new edge does not carry the metadata its AddEdge call gave (nil for edges the compound ops create), "
+              "or two listings of one edge disagree"]
 
 
 def first_bad_step(h, impl_h):
@@ -564,6 +628,7 @@ def main():
             step = dg["step"]
             what = "after op %d (%s): fails %s" % (step, json.dumps(small[step]), "; ".join(dg["failed_clauses"]))
         rep = {"kind": kind, "input": small, "edge_kind_names": {str(k): KINDS[k] for k in kinds_of(small)},
+               "add_edge_metadata": {str(m): META_TEXT[m] for m in sorted({o.get("meta", 0) for o in small if o["op"] == "AddEdge"})},
                "implementation_output": o, "claim": claim,
                "first_inconsistent_step": step, "what": what, "diagnosis": dg}
         if kind == "correspondence":
@@ -606,12 +671,31 @@ def main():
     max_edges = 0
     distinct = set()
     kind_use, multi_kind_pair_steps, filt_rows, filt_queries = {}, 0, 0, 0
+    meta_use, readd_other_meta, related_pair_steps, kind_removals_on_multi = {}, 0, 0, 0
+    related = {(KINDS[a], KINDS[b]) for a, b in NAME_RELATED}
     for h, ob in zip(cases, impl):
         lengths[len(h)] = lengths.get(len(h), 0) + 1
         nf = len(filters_for(h))
-        for o in h:
+        first_meta = {}
+        for i, o in enumerate(h):
             if o["op"] == "AddEdge":
                 kind_use[KINDS[o["kind"]]] = kind_use.get(KINDS[o["kind"]], 0) + 1
+                mt = META_TEXT[o.get("meta", 0)]
+                meta_use[mt] = meta_use.get(mt, 0) + 1
+                # re-insertion of an edge the implementation lists, with metadata other than the stored one
+                if i > 0:
+                    for r in ob[i - 1]["edges"]:
+                        for j in range(r[1]):
+                            e = r[2 + 6 * j:8 + 6 * j]
+                            if r[0] == e[0] == o["f"][0] and e[2] == o["t"][0] and e[4] == o["kind"]:
+                                ek = (e[0], e[2], e[4], e[5])
+                                if first_meta.get(ek, 0) != o.get("meta", 0):
+                                    readd_other_meta += 1
+                nw = {(e[0], e[2], e[4], e[5]) for r in ob[i]["edges"] for j in range(r[1])
+                      for e in [r[2 + 6 * j:8 + 6 * j]]}
+                for ek in nw:
+                    if ek[:3] == (o["f"][0], o["t"][0], o["kind"]) and ek not in first_meta:
+                        first_meta[ek] = o.get("meta", 0)
         for x in ob:
             filt_rows += len(x.get("filt") or [])
             filt_queries += 3 * nf * len(x["nodes"])
@@ -620,6 +704,8 @@ def main():
             for e in es:
                 pairs.setdefault((e[0], e[2]), set()).add(e[4])
             multi_kind_pair_steps += 1 if any(len(v) > 1 for v in pairs.values()) else 0
+            related_pair_steps += 1 if any((KINDS[a], KINDS[b]) in related for v in pairs.values()
+                                           for a in v for b in v if a < NK and b < NK) else 0
         prev_nodes = {}
         for i, (o, x) in enumerate(zip(h, ob)):
             opmix[o["op"]] = opmix.get(o["op"], 0) + 1
@@ -638,6 +724,8 @@ def main():
             prev_nodes = nodes
         if match_stale_version_key(h, ob):
             stale += 1
+        if match_remove_edge_other_kind(h, ob):
+            kind_removals_on_multi += 1
         if any(x["edges"] for x in ob):
             distinct.add(json.dumps(h, sort_keys=True))
     res.coverage.update({
@@ -646,7 +734,11 @@ def main():
         "rule": "seeded op histories (length 1-25) over 5 declared bases x 2 file versions + 2 primitives + 2 "
                 "specials; edge kinds: ALL SymbolEdgeKind constants declared in graphs/symboldg of the tree under "
                 "test (" + " ".join(KINDS) + "), a palette of 1-4 of them per history (30%: ty/ref/fld, 10%: all), "
-                "30% of the AddEdge ops after an AddEdge link the same pair again; ops AddPrimitive/AddSpecial/AddStruct(with "
+                "30% of the histories draw two kinds whose NAMES are related as strings (one contains the other; computed "
+                "from the declared names) together; 30% of the AddEdge ops after an AddEdge link the same pair again by "
+                "another kind; AddEdge carries a metadata argument (nil / {note:first} / {note:second} / {}; 45% of the "
+                "histories all nil), 7% of the ops re-add an edge added earlier (same or other metadata, after other edges); "
+                "half of the RemoveEdge ops aim at a pair linked earlier (by that edge's kind / another kind / nil); ops AddPrimitive/AddSpecial/AddStruct(with "
                 "fields)/AddField(declared or built-in type)/AddEnum(with values)/AddAlias/AddEdge/RemoveEdge(kind or "
                 "nil)/RemoveNode; edges before nodes, removals of absent things, repeated ops (12%), stale and newer "
                 "file versions in three intensities; each history executed on a fresh symboldg.SymbolGraph "
@@ -671,7 +763,12 @@ def main():
             "ops_returning_error": errors, "steps_with_edges": edge_steps, "max_distinct_edges": max_edges,
             "histories_using_stale_version_keys": stale, "corpus_cases": ncorpus,
             "edge_kinds_declared": KINDS, "add_edge_ops_per_kind": kind_use,
-            "steps_with_two_kinds_between_one_pair": multi_kind_pair_steps},
+            "steps_with_two_kinds_between_one_pair": multi_kind_pair_steps,
+            "kind_names_related_as_strings": sorted([a, b] for a, b in related),
+            "steps_with_two_name_related_kinds_between_one_pair": related_pair_steps,
+            "histories_with_a_kind_specific_remove_edge_on_a_pair_linked_by_another_kind_too": kind_removals_on_multi,
+            "add_edge_ops_per_metadata_argument": meta_use,
+            "add_edge_of_a_listed_edge_with_other_metadata": readd_other_meta},
     })
     res.assumptions += [
         "RemoveEdge(kind=nil) selects inner keys by the string suffix '::'+toBase; modelled as equality of the "
